@@ -3,19 +3,25 @@
    with storage faults.  Pure function: TLC enumerates (tree, request, fault) and evaluates once. *)
 EXTENDS Naturals, Sequences, FiniteSets, TLC
 CONSTANTS MaxSegs,
-          DevTruncateInPlace     \* current code: Path.write_bytes truncates, then writes
-\*   TOP/ up/ { e, d/ { df }, L }   up2/ { s2 }   out/ { sec }
+          DevTruncateInPlace,    \* deviation (tree before its fix): Path.write_bytes truncates, then writes
+          DevLoopLexical,        \* deviation (tree before its fix): what Path.resolve() returns after giving up at a symbolic-
+                                 \* link loop is trusted as if it were fully resolved (see StaticServe.tla, LexWalk)
+          LoopInstance           \* TRUE: the instance with a second link M that points at itself, and paths through it
+\*   TOP/ up/ { e, d/ { df }, L, M }   up2/ { s2 }   out/ { sec }          (M: absent, or a link to itself)
 Dirs  == {"TOP", "up", "d", "up2", "out"}
 Files == {"e", "df", "s2", "sec"}
-Slots == {"L"}
+Slots == {"L", "M"}
 Nodes == Dirs \cup Files \cup Slots
-Parent == [n \in Nodes |-> CASE n \in {"up", "up2", "out", "TOP"} -> "TOP" [] n \in {"e", "d", "L"} -> "up"
+Parent == [n \in Nodes |-> CASE n \in {"up", "up2", "out", "TOP"} -> "TOP" [] n \in {"e", "d", "L", "M"} -> "up"
                              [] n = "df" -> "d" [] n = "s2" -> "up2" [] n = "sec" -> "out"]
-Targets == (Dirs \ {"TOP"}) \cup Files \cup {"dangling", "L"}
+Targets == (Dirs \ {"TOP"}) \cup Files \cup {"dangling", "L"} \cup (IF LoopInstance THEN {"M"} ELSE {})
 SlotKinds == {[k |-> "absent", to |-> "-"]} \cup [k : {"link"}, to : Targets]
-SegAlphabet == {"", ".", "..", "e", "d", "df", "L", "n", "up2"}
+MKinds == IF LoopInstance THEN {[k |-> "link", to |-> "M"]} ELSE {[k |-> "absent", to |-> "-"]}
+SegAlphabet == IF LoopInstance THEN {"..", "M", "L", "n", "d"} ELSE {"", ".", "..", "e", "d", "df", "L", "n", "up2"}
 Paths == UNION { [1..n -> SegAlphabet] : n \in 0..MaxSegs }
-Requests == [path : Paths, size : {"zero", "ok", "over"}, token : {"notneeded", "right", "wrong", "missing"},
+Requests == IF LoopInstance
+            THEN [path : Paths, size : {"zero", "ok"}, token : {"notneeded"}, mime : {"nolist"}, deleteOn : {TRUE}, fault : {"none"}]
+            ELSE [path : Paths, size : {"zero", "ok", "over"}, token : {"notneeded", "right", "wrong", "missing"},
              mime : {"nolist", "allowed", "refused"}, deleteOn : BOOLEAN, fault : {"none", "partial", "perm", "dropbox"}]   \* dropbox: the directories can be written and searched but not read (mode 0300): storing works as ever
 VARIABLES slot, req, out
 vars == <<slot, req, out>>
@@ -26,6 +32,9 @@ Follow(n, hops) == IF n = "dangling" THEN "dangling" ELSE IF ~IsLink(n) THEN n E
 Child(d, name) == LET c == {n \in Nodes : Parent[n] = d /\ n # "TOP" /\ n = name /\ Exists(n)} IN IF c = {} THEN "none" ELSE CHOOSE n \in c : TRUE
 RECURSIVE InsideUp(_)
 InsideUp(n) == IF n = "up" THEN TRUE ELSE IF n \notin Nodes \/ n = "TOP" THEN FALSE ELSE InsideUp(Parent[n])
+\* following links from n runs in a circle: the first link met twice (where realpath gives up)
+RECURSIVE LoopAnchor(_, _)
+LoopAnchor(n, seen) == IF n \in seen THEN n ELSE LoopAnchor(slot[n].to, seen \cup {n})
 RECURSIVE Resolve(_, _)
 Resolve(loc, segs) ==
   IF loc.at = "loop" \/ segs = <<>> THEN loc
@@ -37,25 +46,22 @@ Resolve(loc, segs) ==
        ELSE LET c == Child(loc.at, s) IN
             IF c = "none" THEN Resolve([loc EXCEPT !.ghost = 1], rest)
             ELSE LET t == Follow(c, 0) IN
-                 IF t = "loop" THEN [at |-> "loop", ghost |-> 0]
+                 IF t = "loop" THEN [at |-> "loop", ghost |-> 0, d |-> Parent[LoopAnchor(c, {})], c |-> LoopAnchor(c, {}), rest |-> rest]
                  ELSE IF t = "dangling" THEN Resolve([at |-> "TOP", ghost |-> 1], rest)
                  ELSE Resolve([at |-> t, ghost |-> 0], rest)
 \* ---- the handler: result = [ok: success?, change: what happened to the tree] -----------------
 NoChange == [kind |-> "none", at |-> "-", ghost |-> 0]
 R(ok, ch) == [ok |-> ok, change |-> ch]
 TokenOK == req.token \in {"notneeded", "right"}
-Handle ==
-  IF ~TokenOK THEN R(FALSE, NoChange)
-  ELSE IF req.size = "over" THEN R(FALSE, NoChange)
-  ELSE IF req.mime = "refused" THEN R(FALSE, NoChange)
-  ELSE LET loc == Resolve([at |-> "up", ghost |-> 0], req.path) IN
+\* what the handler does once the path has been resolved to loc; contained = the containment test really is about loc
+HandleAt(loc, contained) ==
        IF req.size = "zero" THEN                                   \* delete request
             IF ~req.deleteOn THEN R(FALSE, NoChange)
-            ELSE IF loc.at = "loop" \/ ~InsideUp(loc.at) THEN R(FALSE, NoChange)
+            ELSE IF contained /\ ~InsideUp(loc.at) THEN R(FALSE, NoChange)
             ELSE IF loc.ghost > 0 THEN R(FALSE, NoChange)           \* 51
             ELSE IF loc.at \in Dirs \/ req.fault = "perm" THEN R(FALSE, NoChange)   \* unlink fails
             ELSE R(TRUE, [kind |-> "deleted", at |-> loc.at, ghost |-> 0])
-       ELSE IF loc.at = "loop" \/ ~InsideUp(loc.at) THEN R(FALSE, NoChange)
+       ELSE IF contained /\ ~InsideUp(loc.at) THEN R(FALSE, NoChange)
        ELSE IF loc.ghost = 0 /\ loc.at \in Dirs THEN R(FALSE, NoChange)        \* target is a directory
        ELSE IF loc.ghost > 0 /\ loc.at \notin Dirs THEN R(FALSE, NoChange)     \* a file is in the way
        ELSE IF req.fault = "perm" THEN R(FALSE, NoChange)
@@ -63,7 +69,35 @@ Handle ==
             IF DevTruncateInPlace THEN R(FALSE, [kind |-> "mangled", at |-> loc.at, ghost |-> loc.ghost])
             ELSE R(FALSE, NoChange)
        ELSE R(TRUE, [kind |-> IF loc.ghost = 0 THEN "replaced" ELSE "created", at |-> loc.at, ghost |-> loc.ghost])
-Init == slot \in [Slots -> SlotKinds] /\ req \in Requests /\ out = R(FALSE, [kind |-> "pending", at |-> "-", ghost |-> 0])
+\* Path.resolve() at a symbolic-link loop: see StaticServe.tla (the link met twice + the rest of the request, normalised
+\* lexically, links not looked at)
+RECURSIVE LexWalk(_, _, _)
+LexWalk(d, stack, segs) ==
+  IF segs = <<>> THEN [d |-> d, names |-> stack]
+  ELSE LET s == Head(segs)  rest == Tail(segs) IN
+       IF s = "" \/ s = "." THEN LexWalk(d, stack, rest)
+       ELSE IF s = ".." THEN (IF stack # <<>> THEN LexWalk(d, SubSeq(stack, 1, Len(stack) - 1), rest)
+                              ELSE LexWalk(Parent[d], <<>>, rest))
+       ELSE LexWalk(d, Append(stack, s), rest)
+LexInside(lw) == InsideUp(lw.d) \/ (lw.d = "TOP" /\ lw.names # <<>> /\ lw.names[1] = "up")
+RECURSIVE HasLink(_, _)
+HasLink(d, names) ==
+  IF names = <<>> THEN FALSE
+  ELSE LET c == Child(d, Head(names)) IN
+       IF c = "none" THEN FALSE ELSE IF IsLink(c) THEN TRUE ELSE IF c \in Dirs THEN HasLink(c, Tail(names)) ELSE FALSE
+Handle ==
+  IF ~TokenOK THEN R(FALSE, NoChange)
+  ELSE IF req.size = "over" THEN R(FALSE, NoChange)
+  ELSE IF req.mime = "refused" THEN R(FALSE, NoChange)
+  ELSE LET loc == Resolve([at |-> "up", ghost |-> 0], req.path) IN
+       IF loc.at # "loop" THEN HandleAt(loc, TRUE)
+       ELSE LET lw == LexWalk(loc.d, <<loc.c>>, loc.rest)
+                r  == Resolve([at |-> lw.d, ghost |-> 0], lw.names) IN
+            IF r.at = "loop" THEN R(FALSE, NoChange)                        \* resolve()'s own stat() meets the loop: it raises
+            ELSE IF DevLoopLexical THEN (IF LexInside(lw) THEN HandleAt(r, FALSE) ELSE R(FALSE, NoChange))
+            ELSE IF HasLink(lw.d, lw.names) THEN R(FALSE, NoChange)         \* resolving once more changes the path: refused
+            ELSE HandleAt(r, TRUE)
+Init == slot \in {f \in [Slots -> SlotKinds \cup MKinds] : f["L"] \in SlotKinds /\ f["M"] \in MKinds} /\ req \in Requests /\ out = R(FALSE, [kind |-> "pending", at |-> "-", ghost |-> 0])
 Eval == out.change.kind = "pending" /\ out' = Handle /\ UNCHANGED <<slot, req>>
 Spec == Init /\ [][Eval]_vars
 \* ---- properties (C14) ----
